@@ -310,7 +310,7 @@ def run(ctx):
     for nid, n in g.nodes.items():
         for c in cfgmod.calls_in(n.stmt):
             if call_name(c) == "append" and isinstance(c.func, ast.Attribute) and isinstance(c.func.value, ast.Name) \
-                    and c.func.value.id in ("parent_children_array", "child_list"):
+                    and c.func.value.id in ("parent_children_array", "child_list", "meta_children"):
                 appends.append((nid, c))
     for nid, c in appends:
         ok = g.must_pass(g.entry, nid, set(vcalls))
@@ -320,7 +320,7 @@ def run(ctx):
         call = next(c for c in cfgmod.calls_in(g.nodes[nid].stmt) if call_name(c) == "validate_entity_saveto")
         # third argument must be derived from a scan of the whole stack for a repeat ancestor
         arg = call.args[2] if len(call.args) > 2 else None
-        src = None
+        src = arg if arg is not None and not isinstance(arg, ast.Name) else None
         if isinstance(arg, ast.Name):
             for x in walk_own(loop):
                 if isinstance(x, ast.Assign) and any(isinstance(t, ast.Name) and t.id == arg.id for t in x.targets):
